@@ -351,6 +351,12 @@ impl Machine {
             };
         }
         match (op, n) {
+            (b"reset", 1) => {
+                for h in self.hs.iter_mut() {
+                    *h = None;
+                }
+                out.s("ok");
+            }
             (b"new", 7) | (b"fnew", 7) => {
                 let h = handle!(1);
                 let Some(sel) = parse_sel(toks[2]) else { bad!() };
